@@ -779,6 +779,9 @@ func c01(c *core.Ctx) {
 	// C01 as well and are evaluated here under their C07 keys.
 	c07(c)
 
+	c.Clause("C01.7", "the header the miner executes with is the header it seals: the header-immutability clause C13.2 (no writer of Time, MinerAddress, Height, ParentHash below MineBlock after the header was prepared) is evaluated here as well — TIMESTAMP, NUMBER and COINBASE read those fields")
+	c.Run("header-immutable-after-prepare", func() { c13HeaderImmutable(c) })
+
 	c.NotDecidedf("that two executions produce equal hashes and equal account state (a value property); EVM arithmetic; nondeterminism hidden in cgo (secp256k1) or goleveldb; order-insensitivity of the table-listed loops is confirmed by reading, not proved")
 }
 
